@@ -45,14 +45,16 @@ MargFails(k, row, mm) ==
          \cup {Fail(k, row[o].n, "marginal") : o \in
                  {o \in 1..Len(row) : \A j \in 1..Len(mm[i]) : mm[i][j].c # row[o].n[i]}}
        : i \in Agents }
-\* everything in the event that the abstract game does not explain
+\* everything in the event that the abstract game does not explain.  ev.hist = 1: the expansion was recorded on
+\* a second game object after a call history (bounded exploration, a simulation loop that updates its own state
+\* dictionary in place); the same clauses must hold, only the closure bookkeeping of the harness does not apply
 Judge(LL, ev) ==
   UNION {
     (IF SumOK(ev.rows[k]) THEN {} ELSE {Fail(k, T, "sum")})
     \cup MargFails(k, ev.rows[k], ev.marg[k])
     \cup UNION { {Fail(k, ev.rows[k][o].n, c) : c \in Clauses(LL, ev.s, JaOf(k), ev.rows[k][o].n)}
                  \cup (IF ev.s = T /\ ev.rows[k][o].r # <<0, 0>> THEN {Fail(k, ev.rows[k][o].n, "terminal-pays")} ELSE {})
-                 \cup (IF LL.capped = 0 /\ ev.rows[k][o].n \notin Range(LL.states) THEN {Fail(k, ev.rows[k][o].n, "closure")} ELSE {})
+                 \cup (IF LL.capped = 0 /\ ev.hist = 0 /\ ev.rows[k][o].n \notin Range(LL.states) THEN {Fail(k, ev.rows[k][o].n, "closure")} ELSE {})
                  \cup (IF ev.rows[k][o].q <= 0 THEN {Fail(k, ev.rows[k][o].n, "malformed")} ELSE {})
                  \* normalize() of the returned table: the row weight exp(logit) of the normalised table is the
                  \* probability of the row (both logged in units of 1/Q, each off by at most one unit)
